@@ -26,17 +26,17 @@ func Configs(op *Op, c03 bool) []string {
 	switch op.Class {
 	case "inout":
 		if op.NoInplace {
-			return []string{"new", "existing"}
+			return []string{"new", "existing", "existingempty"}
 		}
 		if c03 {
-			return []string{"new", "existing", "existing0600", "existing0444", "inplace", "samepath", "dotslash", "relative", "symlink", "hardlink"}
+			return []string{"new", "existing", "existingempty", "existing0600", "existing0444", "existing0664", "existing0666", "inplace", "samepath", "dotslash", "relative", "symlink", "hardlink"}
 		}
-		return []string{"new", "existing", "inplace", "samepath"}
+		return []string{"new", "existing", "existingempty", "inplace", "samepath"}
 	case "multiin":
 		if op.Name == "api.MergeAppendFile" {
 			return []string{"existing"}
 		}
-		return []string{"new", "existing"}
+		return []string{"new", "existing", "existingempty"}
 	case "outdir":
 		return []string{"dir"}
 	}
@@ -82,10 +82,21 @@ func NewScenario(op *Op, cfg string) *Scenario {
 		s.DestDirs = []string{"out"}
 	case "existing":
 		existing(0640)
+	case "existingempty":
+		// an output reserved beforehand (mktemp style): exists, empty
+		s.Out = sb.Put(outName, nil, 0640)
+		s.Prot = append(s.Prot, outName)
+		s.Outs = []string{outName}
+		s.DestDirs = []string{"out"}
+		s.Replaces = true
 	case "existing0600":
 		existing(0600)
 	case "existing0444":
 		existing(0444)
+	case "existing0664":
+		existing(0664)
+	case "existing0666":
+		existing(0666)
 	case "inplace":
 		s.Out = ""
 		s.Outs = []string{"in/in.pdf"}
